@@ -853,6 +853,7 @@ theorem ins_enteringDefault (sh : Shared D L) (ev : KeyEvent) : InsStep sh.com (
     | exact ins_chineseFallback _ _
     | exact ins_chineseFallback { sh with syl := (env.keyPress sh.syl ev).2 } ev
     | (intro sh' t h; injection h with h; injection h with h1 h2; subst h1; exact Or.inl rfl)
+    | (intro sh' t h; exact Or.inl (congrArg Shared.com (openSymbol_cases env h).1))
     | skip
   -- easy-symbol abbreviation
   intro sh' t h
